@@ -24,7 +24,10 @@ def record(ctx, binp, n, label, focus=None):
 
 def judge(ctx, binp, events, what):
     bad = vlib.validate_trace(ctx, "Bech32Trace", events)
-    for e in vlib.reproduce(ctx, binp, bad):
+    seq = [b for b in bad if not b["in"].get("par")]
+    par = [b for b in bad if b["in"].get("par")]
+    # concurrent batches are reproduced as a whole batch (their trace), sequential calls one by one
+    for e in vlib.reproduce(ctx, binp, seq) + vlib.reproduce_by_trace(ctx, binp, events, par):
         ctx.bad.append(dict(event=e, reason=what))
 
 
